@@ -34,8 +34,16 @@ def classify(tok):
 
 
 def kinds_of(text):
+    """(a RATIO token - NUMBER / NUMBER before ')' - is the division it is inside calc())"""
+    import re
     from css_parser.tokenize2 import Tokenizer
-    return ''.join(classify(t) for t in Tokenizer().tokenize(text))
+    out = []
+    for t in Tokenizer().tokenize(text):
+        if t[0] == 'RATIO':
+            out.extend('/' if p == '/' else ('n' if p.strip() else 'w') for p in re.findall(r'[0-9]+|/|\s+', t[1]))
+        else:
+            out.append(classify(t))
+    return ''.join(out)
 
 
 # ---- generation: derivations of the grammar under random layout, then mutations
